@@ -202,6 +202,20 @@ def worker_main(prop, tier, shard, hyp_seed, outfile):
         class Violation(AssertionError):
             pass
 
+        # Once the time budget is used up (and nothing is being shrunk) the strategy itself turns into a constant:
+        # Hypothesis then runs through its remaining examples in microseconds instead of generating thousands of
+        # cases nobody evaluates (a worker that is still generating when the parent's limit expires loses everything).
+        from hypothesis import strategies as _hs
+        real_strat = strat
+
+        def _pick(_):
+            if st.fail is None and time.time() > t_end:
+                return _hs.just(None)
+            return real_strat
+
+        if tier != "quick":     # quick tiers are sized to end before their time budget; flatmap is not free
+            strat = _hs.builds(lambda: 0).flatmap(_pick)
+
         @hypothesis.seed(hyp_seed)
         @settings(max_examples=budget["examples"], database=None, deadline=None,
                   derandomize=False, report_multiple_bugs=False,
@@ -210,7 +224,7 @@ def worker_main(prop, tier, shard, hyp_seed, outfile):
         @given(strat)
         def test(case):
             now = time.time()
-            if st.error is not None:
+            if case is None or st.error is not None:
                 return
             if st.fail is None:
                 if now > t_end:
